@@ -1848,6 +1848,53 @@ impl ExecutionPlan for FilteredReadExec {
     }
 }
 
+/// Verification hooks: thin wrappers around the private range helpers; no behaviour change.
+#[cfg(feature = "verif-hooks")]
+pub mod verif_hooks {
+    use super::*;
+
+    pub fn trim_ranges_by_offset(
+        mut ranges: Vec<Range<u64>>,
+        to_skip: u64,
+        to_take: u64,
+    ) -> Vec<Range<u64>> {
+        FilteredReadStream::trim_ranges_by_offset(&mut ranges, to_skip, to_take);
+        ranges
+    }
+
+    pub fn intersect_ranges(ranges1: &[Range<u64>], ranges2: &[Range<u64>]) -> Vec<Range<u64>> {
+        FilteredReadStream::intersect_ranges(ranges1, ranges2)
+    }
+
+    pub fn apply_skip_take_to_ranges(
+        mut to_read: Vec<Range<u64>>,
+        mut to_skip: u64,
+        mut to_take: u64,
+    ) -> (Vec<Range<u64>>, u64, u64) {
+        FilteredReadStream::apply_skip_take_to_ranges(&mut to_read, &mut to_skip, &mut to_take);
+        (to_read, to_skip, to_take)
+    }
+
+    pub fn full_frag_range(
+        num_physical_rows: u64,
+        deletion_vector: &Option<Arc<DeletionVector>>,
+    ) -> Vec<Range<u64>> {
+        FilteredReadStream::full_frag_range(num_physical_rows, deletion_vector)
+    }
+
+    pub fn calculate_fetch(position: Range<u64>, bounds: &Range<u64>) -> (u64, u64) {
+        FilteredReadStream::calculate_fetch(position, bounds)
+    }
+
+    pub fn trim_ranges(
+        physical_ranges: Vec<Range<u64>>,
+        logical_position: Range<u64>,
+        bounds: &Range<u64>,
+    ) -> Vec<Range<u64>> {
+        FilteredReadStream::trim_ranges(physical_ranges, logical_position, bounds)
+    }
+}
+
 #[cfg(test)]
 mod tests {
     use std::collections::HashSet;
